@@ -74,6 +74,10 @@ type WsPlan struct {
 	// (binding self-test: the clients must report it)
 	SelfTest string `json:"selfTest"`
 	Out      string `json:"out"`
+	// mode "logs" (wslogs.go): log subscriptions / log filters with user-chosen criteria against injected logs
+	Filters []LogCrit  `json:"filters"`
+	Vectors [][]LogVec `json:"vectors"` // one injected EVM tx event per vector: the logs of its receipt
+	Passes  int        `json:"passes"`
 }
 
 // WsConnResult is what one client saw.
@@ -381,7 +385,11 @@ func startWsNode(p *WsPlan, rec *wsRec) (*wsNode, error) {
 	}
 	n.wsSrv = &http.Server{Handler: h, ErrorLog: stdlog.New(&n.recovered, "", 0)}
 	go func() { _ = n.wsSrv.Serve(bufListener{wl, p.SockBuf, n}) }()
-	go n.source(p.Seed)
+	if p.Mode == "logs" { // the events of this mode are injected in lock-step by the scenario itself
+		close(n.done)
+	} else {
+		go n.source(p.Seed)
+	}
 	go n.sampler()
 	return n, nil
 }
@@ -579,6 +587,9 @@ func serverGoroutines() []srvGor {
 				} else if strings.Contains(short, "pubSubAPI).subscribe") && g.role == "" {
 					g.role = "notifier"
 				}
+			} else if strings.Contains(fn, "filters.(*PublicFilterAPI).NewFilter.func") && g.role == "" {
+				g.role = "filter-consumer"
+				g.where = fn[strings.Index(fn, "filters.(*PublicFilterAPI)"):]
 			}
 		}
 		if g.role != "" {
@@ -600,6 +611,7 @@ type wsSub struct {
 	n      int    // notifications received
 	last   uint64 // emission number of the last one
 	active bool
+	got    []uint64 // mode "logs": the emission numbers received, in order
 }
 
 // wsClient: a pump goroutine reads the socket (and is the one that stalls / reads slowly / pauses), the script
@@ -617,6 +629,8 @@ type wsClient struct {
 	subs    []*wsSub
 	pending [][]byte // notifications of subscriptions whose id is not known yet
 	dead    bool
+	collect bool        // mode "logs": keep what every subscription received
+	seen    chan uint64 // mode "logs", sentinel connection: emission numbers as they arrive
 	// orders to the pump
 	stallNs   int64 // stop reading for that long after the first bytes of the next answer
 	slow      int32 // read the rest of a stalled answer in small pieces
@@ -938,6 +952,15 @@ func (c *wsClient) notification(id string, result json.RawMessage, raw []byte) {
 	}
 	sub.last = num
 	sub.n++
+	if c.collect {
+		sub.got = append(sub.got, num)
+		if c.seen != nil {
+			select {
+			case c.seen <- num:
+			default:
+			}
+		}
+	}
 }
 
 // await reads until every expected answer arrived (bounded wait).
@@ -982,12 +1005,12 @@ func (c *wsClient) class(k string) {
 	c.res.Script = append(c.res.Script, k)
 }
 
-func (c *wsClient) subscribe(kind string) {
+func (c *wsClient) subscribe(kind string, extra ...interface{}) {
 	id := c.id()
 	c.want[id] = "sub:" + kind
 	c.res.Requests++
 	c.class("subscribe-" + kind)
-	if c.send(map[string]interface{}{"jsonrpc": "2.0", "id": id, "method": "eth_subscribe", "params": []interface{}{kind}}) {
+	if c.send(map[string]interface{}{"jsonrpc": "2.0", "id": id, "method": "eth_subscribe", "params": append([]interface{}{kind}, extra...)}) {
 		c.await("eth_subscribe " + kind)
 	}
 }
@@ -1273,6 +1296,9 @@ func RunWs(p *WsPlan) error {
 		return err
 	}
 	res := &WsResult{Events: map[string]int{}}
+	if p.Mode == "logs" {
+		return runLogs(p, node, res, t0)
+	}
 	clients := make([]*wsClient, p.Conns)
 	for i := range clients {
 		clients[i] = &wsClient{node: node, plan: p, rng: rand.New(rand.NewSource(p.Seed*1000003 + int64(i))), want: map[int64]string{},
